@@ -238,8 +238,23 @@ static int recv_events(m_ctx_t *c, int timeout) {
     fetch_ms(&now, NULL);
     c->stats.idle_time += now - c->stats.last_time_called;
 
-    for (int i = 0; i < nfds && !err; i++) {
-        ev_src_t *p = poll_recv(&c->ppriv, i);
+    /*
+     * Keep a reference on every source of this batch and on its module:
+     * a user callback may pause, stop or deregister the owner of an event
+     * that follows in the same batch, which would invalidate our pointers.
+     */
+    const int nbatch = (nfds > 0 && !err) ? nfds : 0;
+    ev_src_t *batch[nbatch + 1];
+    for (int i = 0; i < nbatch; i++) {
+        batch[i] = poll_recv(&c->ppriv, i);
+        if (batch[i]) {
+            m_mem_ref(batch[i]);
+            m_mem_ref(batch[i]->mod);
+        }
+    }
+
+    for (int i = 0; i < nbatch && !err; i++) {
+        ev_src_t *p = batch[i];
         if (p) {
             M_ASSERT(p->process);
             if (!p->mod) {
@@ -249,12 +264,14 @@ static int recv_events(m_ctx_t *c, int timeout) {
                 continue;
             }
 
-            /*
-             * Keep a reference on mod, to avoid that
-             * a m_mod_deregister() call by user callback
-             * invalidates our pointer.
-             */
             m_mod_t *mod = p->mod;
+            if (!m_mod_is(mod, M_MOD_RUNNING) || m_bst_find(mod->srcs[p->type], p) != p) {
+                /*
+                 * An earlier callback of this batch paused/stopped the module
+                 * or deregistered the source: only RUNNING modules receive events.
+                 */
+                continue;
+            }
             evt_priv_t *evt = new_evt(p);
             m_evt_t *msg = NULL;
             if (evt) {
@@ -310,6 +327,14 @@ static int recv_events(m_ctx_t *c, int timeout) {
             /* Forward error to below handling code */
             err = EAGAIN;
             M_WARN("Received message without proper source: src -> %p\n", p);
+        }
+    }
+
+    for (int i = 0; i < nbatch; i++) {
+        if (batch[i]) {
+            m_mod_t *mod = batch[i]->mod;
+            m_mem_unref(batch[i]);
+            m_mem_unref(mod);
         }
     }
 
